@@ -15,6 +15,7 @@ CHECKS = {
  'C06': (REGION, "Theorem C06_rect: accepted (input, output, rectangle) triples have output winding = input winding inside and 0 outside the rectangle at every real point away from the band; vertex bound, inside-unchanged, outside-vanishes and the driver decided directly.", "4.6", "coq-region"),
  'C07': ("differential comparison of every float entry point with its 64-bit counterpart on quantised input (bit-exact) for all precisions; Coq theorems over wrapper terms regenerated from the source (K3)", "Every float entry point is run against the 64-bit entry point on ScalePathsDToPaths64(input) for all 17 precisions and 4 illegal ones, compared bit for bit; the wrapper dataflow is translated from /repo's current text into Coq terms and proved equal to the specified dataflow (see evidence for which wrappers).", "4.7", "coq-k3"),
  'C08': (K1 + "; " + REGION, "Theorems C08_total/C08_count/C08_quads_closed/C08_quads_positive about the faithful model of minkowskiInternal (all inputs); C08_region: accepted results equal the union of the swept parallelograms at every real point farther than 2 from every parallelogram edge; canonical form and sum(A,B)=sum(B,A) certified likewise. PARTIAL near interior parallelogram edges (DESIGN 4.8).", "4.8", "coq-region"),
+ 'C09': ("Coq proof of a certified result checker for open segments (slab ordering + exact pointwise evaluation, soundness for every real parameter) + extracted checker run on the implementation's outputs", "Theorem c09_seg_sound: for an accepted (closed subject, clip, open solution, subject segment), every real point of the segment farther than 2 from every closed edge is covered by the open solution exactly when the clip-type rule on the exact winding numbers says so; the closed solution is certified against the closed inputs alone (C01_region); sub-polyline clause decided directly.", "4.9", "coq-region"),
  'C10': (REGION, "Theorems C10_strips_inside / C10_nothing_far (+ C02_canonical): accepted strokes contain both normal strips of every segment and nothing farther than k*delta+tol from the polyline, at every real point away from the band. The missing end caps of the unchanged tree are a recorded known finding.", "4.10", "coq-region"),
  'C11': ("Coq proof of a certified result checker for line clipping (exact Liang-Barsky intervals, soundness for every real parameter) + extracted checker run on the implementation's outputs", "Theorem C11_lines: for an accepted (rectangle, lines, output), every real point of every input segment farther than 2 from the rectangle's sides is covered by the output exactly when it is strictly inside; C11_vertices: output vertices within the rectangle enlarged by 1 and within 1 of an input segment; driver consistency decided directly.", "4.11", "coq-region"),
  'C12': ("Coq proofs about a hand-written state machine of the engine between calls (sweep as oracle), state compared with the real engine through a verif hook after every history; history-vs-fresh-engine differential run with certified region equality", "Theorems C12_* for ALL operation sequences: scratch lists are empty between calls, an Execute's output depends only on the paths added (and the sticky tree flag), equals a fresh engine's under the flat-output hypothesis (which the check tests), solution arguments are replaced; machine-checked refutation without that hypothesis. Input immutability is checked dynamically (PARTIAL).", "4.12", "coq-k1"),
